@@ -11,6 +11,9 @@ def reg(id, cat, technique, text, note):
     CHECKS[id] = dict(cat=cat, technique=technique, text=text, note=note)
 
 exec(open(os.path.join(HERE, "checks_table.py")).read())
+import glob
+for f in sorted(glob.glob(os.path.join(HERE, "checks_table.d", "*.py"))):
+    exec(open(f).read())
 
 NOT_YET = "harness not built yet in this session (planned in DESIGN.md section 3)"
 NA = {}
